@@ -8,13 +8,12 @@ import (
 	"reduction.dev/reduction/util/vhook"
 )
 
-// verifRetune replaces the 200ms watermark ticker with the harness's interval
+// verifRetune replaces the 200ms watermark interval with the harness's interval
 // so that short simulated runs see watermarks.
 func (r *SourceRunner) verifRetune() {
 	t := vhook.Tuning()
 	if t == nil || t.WatermarkIntervalNanos == 0 {
 		return
 	}
-	r.watermarkTicker.Stop()
-	r.watermarkTicker = time.NewTicker(time.Duration(t.WatermarkIntervalNanos))
+	r.watermarkInterval = time.Duration(t.WatermarkIntervalNanos)
 }
